@@ -108,8 +108,10 @@ def load_seeded():
         patch = os.path.join(d, name, "patch.diff")
         if os.path.exists(meta) and os.path.exists(patch):
             m = json.load(open(meta))
+            benign = m.get("kind") == "benign"
             out.append(dict(id="seeded/" + name, props=m.get("check_props") or [m["property"]], patch=patch,
-                            expect=m.get("expect_rules") or ["*"], seeded=True, note=m.get("summary", "")))
+                            expect=None if benign else (m.get("expect_rules") or ["*"]), seeded=True, kind=m.get("kind", "breaks property"),
+                            note=m.get("summary", "")))
     return out
 
 
@@ -132,7 +134,7 @@ def main(argv):
     for r in results:
         v = r["v"]
         st = r["status"]
-        if v.get("seeded") and v.get("expect") == ["*"]:
+        if v.get("seeded") and v.get("expect") == ["*"] and r["status"] not in ("skipped", "broken-variant"):
             # seeded change without a registered expectation: detected iff any check exits 1
             st = "ok" if any(c == 1 for c in r.get("codes", [])) else ("analysis-error" if any(c == 2 for c in r.get("codes", [])) else "MISSED")
             r["status"] = st
